@@ -719,6 +719,9 @@ class XMLResource(XMLResourceLoader):
                             ancestors.pop()
                         continue
                     elif level == path_depth:
+                        if not select_all and level > lazy_depth and self._xpath_root is not None:
+                            # the XPath tree caches the children built so far
+                            self._xpath_root.children.clear()
                         if select_all or node in selector.iter_select(self):
                             yield node
                     if level == lazy_depth:
